@@ -129,8 +129,8 @@ def run(ctx):
              "64 / threshold 33; non-trivial = inputs with a skipped entry before a used one or shares out of index order. "
              "collection: behaviours of up to 3 deliveries from a 23-message alphabet plus up to 3/4 deliveries from a 10-message "
              "alphabet of two senders (every history of repeated messages of one sender: valid then invalid, invalid then "
-             "valid, valid then another valid-looking share; messages after the threshold) (correct, wrong signer, wrong message, "
-             "infinity, malformed, other session, own echo, outsider, other payload) ending in timeout / entry submitted by "
+             "valid, valid then another valid-looking share; messages after the threshold); message kinds: correct, wrong signer, "
+             "wrong message, infinity, malformed, other session, own echo, outsider, other payload; ending in timeout / entry submitted by "
              "another member / threshold reached; all with <= 1 delivery plus a seeded sample.",
         assumptions=["field Z_11 stands for the BN254 scalar field in the model (recovery is the same linear formula)",
                      "group elements f(i)*H are represented by the field element f(i) in the model",
